@@ -32,7 +32,7 @@
 EXTENDS ReplaceTypeContract
 
 CONSTANTS Positions, Others, SrcKinds, Targets, Levels, Placements,   \* the dimensions the contract speaks about
-          Templates, Listings, Formatters,   \* how a case is observed / spelled: no influence on the expected outcome
+          Templates, Listings, Formatters, Kinds,   \* how a case is observed / spelled: no influence on the expected outcome
           Wanted        \* set of dim tuples to export in full; {} = print dims only
 
 VARIABLES pos, other, srckind, target, level, place,
@@ -49,7 +49,12 @@ vars == <<pos, other, srckind, target, level, place, pc, cfg, out>>
 \*                 ("min": only where the level needs it; "I1"; "all"): unlisted interfaces get a deep copy of the
 \*                 package config (config.go GetInterfaceConfig), listed ones a merge (PackageConfig.Initialize)
 \*   Formatters -- goimports removes unused imports, gofmt / noop leave the template's import block alone
-ASSUME PrintT(<<"OBSDIMS", ToJson([templ |-> Templates, listing |-> Listings, fmt |-> Formatters])>>)
+\*   Kinds      -- the kind of the replaced and of the replacing type (s struct, b named basic, i interface / s struct,
+\*                 i interface, m map, p alias of a pointer).  The contract speaks about names only; what the templates
+\*                 derive from the type (nil guards, zero values, ...) is covered by the harness's "native twin" oracle:
+\*                 the mock rendered under {T |-> R} must be textually the mock rendered, without the setting, for a
+\*                 twin interface written with R directly.
+ASSUME PrintT(<<"OBSDIMS", ToJson([templ |-> Templates, listing |-> Listings, fmt |-> Formatters, kinds |-> Kinds])>>)
 
 -----------------------------------------------------------------------------
 (* Code-shaped layer *)
